@@ -1,69 +1,55 @@
-// Replay enumerator for the FrameStore unit: real function text, plain rustc.
+// Replay enumerator for FrameStore: the real text of every method (R1 only) over all push sequences of small seq values.
 use std::collections::VecDeque;
-pub struct EventKind { pub filler: u8 }
-pub struct Event { pub id: String, pub session_id: String, pub timestamp_ms: u64, pub seq: u64, pub kind: EventKind }
-fn ev(seq: u64) -> Event { Event { id: String::new(), session_id: String::new(), timestamp_ms: 0, seq, kind: EventKind { filler: 0 } } }
-
-//@@ item crates/rip-tui/src/frame_store.rs struct FrameStore dropderive=Clone
+//@@ include prelude/kernel_model_plain.rs
+//@@ item crates/rip-tui/src/frame_store.rs struct FrameStore
 impl FrameStore {
     //@@ fn crates/rip-tui/src/frame_store.rs FrameStore::new
     //@@ end
     //@@ fn crates/rip-tui/src/frame_store.rs FrameStore::len
     //@@ end
-    //@@ fn crates/rip-tui/src/frame_store.rs FrameStore::push
+    //@@ fn crates/rip-tui/src/frame_store.rs FrameStore::is_empty
     //@@ end
     //@@ fn crates/rip-tui/src/frame_store.rs FrameStore::first_seq
     //@@ end
     //@@ fn crates/rip-tui/src/frame_store.rs FrameStore::last_seq
     //@@ end
-    //@@ fn crates/rip-tui/src/frame_store.rs FrameStore::is_empty
+    //@@ fn crates/rip-tui/src/frame_store.rs FrameStore::push
     //@@ end
     //@@ fn crates/rip-tui/src/frame_store.rs FrameStore::index_of_seq
     //@@ end
     //@@ fn crates/rip-tui/src/frame_store.rs FrameStore::get_by_seq
     //@@ end
 }
+fn ev(seq: u64, n: usize) -> Event { Event { id: format!("e{n}"), session_id: "s".into(), timestamp_ms: 0, seq, kind: EventKind::OutputTextDelta { delta: String::new() } } }
 
 fn main() {
-    let args: Vec<String> = std::env::args().collect();
-    let label = args.get(1).cloned().unwrap_or_default();
-    let seqs: [u64; 5] = [0, 1, 2, 3, u64::MAX];
-    // all push histories of length <= 4 over `seqs`, capacities 0..=3, every query in seqs + 4
-    for cap in 0usize..=3 {
-        for len in 0..=4u32 {
-            for code in 0..5usize.pow(len) {
-                let mut hist = Vec::new();
-                let mut c = code;
-                for _ in 0..len { hist.push(seqs[c % 5]); c /= 5; }
-                let mut st = FrameStore::new(cap);
-                let mut model: Vec<u64> = Vec::new();
-                for s in &hist {
-                    st.push(ev(*s));
-                    model.push(*s);
-                    if model.len() > cap.max(1) { model.remove(0); }
-                    if st.len() != model.len() && label.starts_with("push") {
-                        println!("WITNESS {{\"capacity\": {}, \"pushed_seqs\": {:?}, \"len\": {}, \"expected_len\": {}}}", cap, hist, st.len(), model.len());
-                        return;
-                    }
-                }
-                for q in [0u64, 1, 2, 3, 4, u64::MAX] {
-                    if let Some(i) = st.index_of_seq(q) {
-                        if i >= model.len() || model[i] != q {
-                            if label.starts_with("index_of_seq") || label.starts_with("get_by_seq") {
-                                println!("WITNESS {{\"capacity\": {}, \"pushed_seqs\": {:?}, \"query_seq\": {}, \"index_returned\": {}, \"seq_at_index\": {}}}",
-                                    cap, hist, q, i, model.get(i).map(|v| v.to_string()).unwrap_or("out-of-range".into()));
-                                return;
-                            }
-                        }
-                    }
-                    if let Some(e) = st.get_by_seq(q) {
-                        if e.seq != q && label.starts_with("get_by_seq") {
-                            println!("WITNESS {{\"capacity\": {}, \"pushed_seqs\": {:?}, \"query_seq\": {}, \"returned_frame_seq\": {}}}", cap, hist, q, e.seq);
-                            return;
-                        }
-                    }
-                }
+    // capacities 0..3 (0 is clamped to 1), every sequence of up to 6 pushes with seq values in 0..4 (repeats, gaps, going backwards)
+    for cap in 0usize..=3 { for n in 0..=6usize { for code in 0..4usize.pow(n as u32) {
+        let mut c = code; let seqs: Vec<u64> = (0..n).map(|_| { let s = (c % 4) as u64; c /= 4; s }).collect();
+        let mut st = FrameStore::new(cap);
+        let bound = cap.max(1);
+        let mut model: Vec<(u64, String)> = Vec::new();
+        let mut problem: Option<String> = None;
+        for (i, s) in seqs.iter().enumerate() {
+            st.push(ev(*s, i));
+            if model.len() >= bound { model.remove(0); }
+            model.push((*s, format!("e{i}")));
+            let got: Vec<(u64, String)> = st.frames.iter().map(|e| (e.seq, e.id.clone())).collect();
+            if st.len() > bound { problem = Some(format!("holds {} frames after push {} but the bound is {}", st.len(), i, bound)); break; }
+            if got != model { problem = Some(format!("after push {i} the window is {got:?} but the newest {bound} frames in arrival order are {model:?}")); break; }
+            if st.len() != model.len() || st.is_empty() != model.is_empty() || st.first_seq() != model.first().map(|m| m.0) || st.last_seq() != model.last().map(|m| m.0) {
+                problem = Some(format!("len / is_empty / first_seq / last_seq disagree with the window after push {i}")); break; }
+            for q in 0..6u64 {
+                match st.index_of_seq(q) { Some(k) => if k >= st.len() || st.frames[k].seq != q { problem = Some(format!("index_of_seq({q}) = {k} names a frame with another seq or none")); }, None => {} }
+                match st.get_by_seq(q) { Some(e) => if e.seq != q { problem = Some(format!("get_by_seq({q}) returned the frame with seq {}", e.seq)); }, None => {} }
+                // contiguous window: every held seq is found
+                if model.windows(2).all(|w| w[1].0 == w[0].0 + 1) && model.iter().any(|m| m.0 == q) && st.get_by_seq(q).is_none() { problem = Some(format!("get_by_seq({q}) finds nothing although the frame is in a contiguous window")); }
             }
+            if problem.is_some() { break; }
         }
-    }
+        if let Some(p) = problem {
+            println!("WITNESS {{\"function\": \"FrameStore::push\", \"max_frames\": {}, \"pushed_seqs\": {:?}, \"problem\": {:?}}}", cap, seqs, p);
+            return;
+        }
+    } } }
 }
